@@ -7,6 +7,7 @@ import (
 	"fmt"
 	"os"
 	"runtime"
+	"strconv"
 	"strings"
 	"sync/atomic"
 	"time"
@@ -62,6 +63,14 @@ func run(c *vrt.Ctx) {
 	}
 
 	only := os.Getenv("C19_ONLY")
+	if only == "runtime" {
+		// self-test aid: the runtime group repeated C19_LOOP times
+		n, _ := strconv.Atoi(os.Getenv("C19_LOOP"))
+		for i := 0; i < max(n, 1); i++ {
+			runAll(runtimeCases())
+		}
+		return
+	}
 	if only == "quad" {
 		runAll(quadCases(c, c.Pick(8, 80)))
 		return
